@@ -9,7 +9,8 @@ theorem's guard (target is not the root path, id is not the root's own id) evalu
 Known findings (caller misuse outside the guard) and fixed entries are replayed on the real class on every run; a fixed
 entry that fails again is a VIOLATION.
 Search oracle (only after a break): the coherence predicate evaluated on the real object after every guarded
-operation of generated sequences, plus comparison of all getters with a plain dictionary model."""
+operation of generated sequences, plus comparison of the outcome and of all getters with the Lean dictionary
+specification (Model/HDict.lean, proved refined by the cache: `hcache_refines_dict`) executed through the driver layer `dict`."""
 import hashlib
 import itertools
 import json
@@ -503,10 +504,13 @@ def _job(job):
         _, seed, idx, n = job
         rng = rng_for(seed, "c19oracle%d" % idx)
         checked = 0
+        items = []
         for _ in range(n):
             cs = rng.random() < 0.5
-            ops = [rand_op(rng, False) for _ in range(rng.randint(1, 12))]
-            hit, k = oracle_run(cs, ops)
+            items.append((cs, [rand_op(rng, False) for _ in range(rng.randint(1, 12))]))
+        specs = spec_lines(items)
+        for (cs, ops), spec in zip(items, specs):
+            hit, k = oracle_run(cs, ops, spec)
             checked += k
             if hit:
                 return {"hit": shrink(cs, ops, hit), "checked": checked}
@@ -563,14 +567,19 @@ def run_jobs(jobs):
 
 # ------------------------------------------------------------------ step 4: the property evaluated on the implementation
 
-class DictModel:
-    """The plain dictionary the property speaks of: normalised path (tuple of components) -> (type, id or None),
-    with "invalidate the subtree" semantics.  Only used under the theorem's guard (target is not the root; the id
-    being assigned is not the root's own id)."""
+class SpecDict:
+    """One state of the Lean dictionary specification (Model/HDict.lean, driver layer `dict`): normalised path (tuple
+    of components) -> (type, id or None).  This is the specification `hcache_refines_dict` is proved against; the
+    oracle executes it through the driver instead of re-implementing it."""
 
-    def __init__(self, cs):
+    def __init__(self, cs, line):
         self.cs = cs
-        self.d = {(): ("D", "R")}
+        self.res, _, ents = line.partition(" # ")
+        self.d = {}
+        for tok in ents.split():
+            k, t, o = tok.rsplit(":", 2)
+            key = () if k == "^" else tuple(dec_str(x) for x in k.split("/"))
+            self.d.setdefault(key, (t, None if o == "~" else OID[int(o)]))
 
     def comps(self, path):
         return tuple(comps_real(self.cs, path))
@@ -583,90 +592,35 @@ class DictModel:
                 return k
         return None
 
-    def rm(self, k):
-        for q in [q for q in self.d if q[:len(k)] == k and q != ()]:
-            del self.d[q]
-
-    def ensure_parents(self, ks):
-        for j in range(1, len(ks)):
-            q = ks[:j]
-            if q not in self.d or self.d[q][0] == "F":
-                if q in self.d:
-                    self.rm(q)
-                self.d[q] = ("D", None)
-
-    def insert(self, ks, t, o):
-        # __insert_node: evict the previous owners of the path and of the id, then make sure the parents exist
-        if ks in self.d:
-            self.rm(ks)
-        h = self.holder(o)
-        if h is not None:
-            self.rm(h)
-        self.ensure_parents(ks)
-        self.d[ks] = (t, o)
-
-    def set_oid_existing(self, ks, o):
-        t0, i0 = self.d[ks]
-        if i0 == o:
-            return
-        h = self.holder(o)
-        if h is not None:
-            self.rm(h)                      # may take ks away with it (previous owner is an ancestor)
-        if ks in self.d and i0 is None:
-            self.d[ks] = (t0, o)
-        else:
-            self.insert(ks, t0, o)          # replacement: children are lost
-
-    def apply(self, op):
-        k = op[0]
-        if k in ("mkdir", "create"):
-            self.insert(self.comps(op[1]), "D" if k == "mkdir" else "F", real_oid(op[2]))
-        elif k == "delete":
-            o, p = real_oid(op[1]), op[2]
-            if o is not None:
-                key = () if o == "R" else self.holder(o)
-            elif p is not None:
-                key = self.comps(p)
-                key = key if key in self.d else None
-            else:
-                return "!ValueError"
-            if key is not None:
-                self.rm(key)
-        elif k == "rename":
-            ko, kn = self.comps(op[1]), self.comps(op[2])
-            if ko in self.d:
-                if ko == ():
-                    return "!ValueError"
-                sub = {q[len(ko):]: v for q, v in self.d.items() if q[:len(ko)] == ko}
-                self.rm(ko)
-                if kn in self.d:
-                    self.rm(kn)
-                self.ensure_parents(kn)
-                for rel, v in sub.items():
-                    self.d[kn + rel] = v
-            elif kn in self.d:
-                self.rm(kn)
-        elif k == "setoid":
-            o = real_oid(op[2])
-            if not o or not op[1]:
-                return "!AssertionError"
-            ks = self.comps(op[1])
-            if ks in self.d:
-                self.set_oid_existing(ks, o)
-            else:
-                self.insert(ks, op[3], o)
-        elif k == "update":
-            ks, t, o = self.comps(op[1]), op[2], real_oid(op[3])
-            if ks in self.d and self.d[ks][0] != t:
-                self.rm(ks)
-            if ks not in self.d:
-                self.insert(ks, t, o)
-            elif o:
-                self.set_oid_existing(ks, o)
-        return "ok"
-
     def render(self, k):
         return "/" + "/".join(k)
+
+
+def spec_lines(items):
+    """run the Lean dictionary specification on every sequence; returns, per sequence, the output line per op"""
+    lines, idx = [], []
+    for cs, ops in items:
+        lines.append("reset %s 9" % enc_bool(cs))
+        idx.append(None)
+        for op in ops:
+            lines.append(op_line(op))
+            idx.append(1)
+    out = run_driver("dict", lines) if lines else []
+    res, cur = [], None
+    for tag, o in zip(idx, out):
+        if tag is None:
+            cur = []
+            res.append(cur)
+        else:
+            cur.append(o)
+    return res
+
+
+def oid_ok(op):
+    """ids handed to mkdir/create/update are None or truthy (second guard of the refinement theorem)"""
+    k = op[0]
+    o = op[2] if k in ("mkdir", "create") else (op[3] if k == "update" else None)
+    return o != 0
 
 
 def compare_with_dict(cache, cs, dm):
@@ -699,30 +653,32 @@ def compare_with_dict(cache, cs, dm):
     return None
 
 
-def oracle_run(cs, ops):
+def oracle_run(cs, ops, spec=None):
     """Evaluate the C19 statement on the implementation along one sequence: from the (coherent) initial cache, every
-    operation that satisfies the theorem's guard must leave the cache coherent, with all lookups equal to the dictionary
-    model's, `get_path`/`get_oid` inverse on cached ids.  The run stops at the first operation outside the guard.
+    operation that satisfies the theorems' guards must have the specified outcome and leave the cache coherent, with
+    all lookups equal to those of the Lean dictionary specification run on the same operations (`spec`: its output
+    lines), `get_path`/`get_oid` inverse on cached ids.  The run stops at the first operation outside the guards.
     Returns (failure dict or None, number of operations checked)."""
+    if spec is None:
+        spec = spec_lines([(cs, ops)])[0]
     cache = new_cache(cs)
-    dm = DictModel(cs)
     for i, op in enumerate(ops):
         try:
-            safe = op_safe_real(cache, cs, op)
+            safe = op_safe_real(cache, cs, op) and oid_ok(op)
         except Exception:  # noqa
             safe = False
         if not safe:
             return None, i
         res = apply_real(cache, op)
-        want = dm.apply(op)
+        dm = SpecDict(cs, spec[i])
         why = coherent_real(cache, cs)
         if why is None:
             try:
                 why = compare_with_dict(cache, cs, dm)
             except Exception as e:  # noqa
                 why = "getter raised %s" % type(e).__name__
-        if why is None and res != want:
-            why = "operation returned %s, dictionary model says %s" % (res, want)
+        if why is None and res != dm.res:
+            why = "operation returned %s, the dictionary specification says %s" % (res, dm.res)
         if why is not None:
             return {"case_sensitive": cs, "ops": [op_text(o) for o in ops[:i + 1]], "ops_wire": [op_line(o) for o in ops[:i + 1]],
                     "failure": why, "result_of_last_op": res}, i + 1
@@ -750,11 +706,14 @@ def oracle_search(seed, tier):
     checked = 0
     for cs in (True, False):
         for d in (1, 2):
-            for ops in itertools.product(SMALL_ALPHA, repeat=d):
-                hit, k = oracle_run(cs, list(ops))
-                checked += k
-                if hit:
-                    return shrink(cs, list(ops), hit), checked
+            items = [(cs, list(ops)) for ops in itertools.product(SMALL_ALPHA, repeat=d)]
+            for i0 in range(0, len(items), 3000):
+                chunk = items[i0:i0 + 3000]
+                for (cs_, ops), spec in zip(chunk, spec_lines(chunk)):
+                    hit, k = oracle_run(cs_, ops, spec)
+                    checked += k
+                    if hit:
+                        return shrink(cs_, ops, hit), checked
     n = 20000 if tier == "quick" else 200000
     jobs = [("oracle", seed, i, n // 64) for i in range(64)]
     if NPROC == 1:
